@@ -241,6 +241,20 @@ class Channel:
 
 
 def run_case(acc, case):
+    n0 = len(acc.violations)
+    try:
+        _run_case(acc, case)
+    except Exception as e:  # noqa
+        if len(acc.violations) == n0:
+            import traceback
+            tb = traceback.extract_tb(e.__traceback__)
+            lib = [f for f in tb if "/magicbot/" in f.filename or "/robotpy_ext/" in f.filename]
+            if not lib:
+                raise          # a fault of the harness itself: let the worker die loudly
+            acc.violation("C09/access-raised", f"reading or writing a bound tunable raised {e!r} in {lib[-1].name}", case, {})
+
+
+def _run_case(acc, case):
     import hal.simulation as hs
     from magicbot.magic_tunable import setup_tunables
     acc.evaluations += 1
